@@ -6,17 +6,21 @@ from ..distcases import C13_DIRECTED, c13_length_for, run_c13_case
 
 ID = 'C13'
 LEVEL = 'exploration'
+QUICK_SCALE = 5      # the quick tier was enlarged by this factor after MIN_OBS['quick'] was measured
 RULE = (
     "One case = one simulated world: scripted server, the real client 'me' logged in, 3-4 scripted peers, one "
     "sequence of <= 10 abstract events, each applied by one harness function: potential_parents(subset) pushed by "
     "the server (the client dials those peers, type D), incoming_d(peer), announce(peer, level, root, order in "
     "level-first/root-first/level-only/root-only; level 0 <=> root = sender; on every live D link of the peer), "
-    "disconnect(peer, close|abort), connect_fail(peer, refuse|hang: next direct connect of the client to it), "
+    "disconnect(peer, close|abort), connect_fail(peer, refuse|hang|slow(2-4.5 s): next direct connect of the client "
+    "to it), potential_parents with 8-13 additional unreachable names ('ghosts': nobody listens, unknown to the "
+    "server) and wait(t) - together the family 'more proposals than the documented 20-name cache, the connect to "
+    "the first proposed user completes after its name left the cache' (12 % of the seeded sequences of length >= 7), "
     "limits(ParentMinSpeed+ParentSpeedRatio, own speed answered to GetUserStats: documented child limit 0/1/3/11, "
     "acceptance off/on), reset (ResetDistributed), session_loss (server RST; optionally 1-2 peer events applied "
     "while the client has no session; then connect_server + login by the harness, reconnect.auto is off). Per case: "
-    "connect mode race|fallback, per peer reaction to a relayed ConnectToPeer (pierce|cannot|ignore). First 82 "
-    "cases: 41 hand-written sequences of length 1-8 (x both connect modes) so that the lowest-numbered witness is a "
+    "connect mode race|fallback, per peer reaction to a relayed ConnectToPeer (pierce|cannot|ignore). First 84 "
+    "cases: 42 hand-written sequences of length 1-8 (x both connect modes) so that the lowest-numbered witness is a "
     "short one; then seeded sequences whose length is non-decreasing in the case number (2..10). Even cases "
     "separate events by 0.5 virtual s of quiescence (history quantifier); odd cases fire bursts of 2-4 events with "
     "gaps of 0-3 loop yields / 1-8 ms, every remote party applying its own events in order (schedule quantifier), "
@@ -24,8 +28,9 @@ RULE = (
     "children (same connection; same user through a second connection is a separate signature); parent's and "
     "children's connections CONNECTED with both simulated endpoints alive; with a parent set, no other live D "
     "link whose peer announced level and root; at entry of every _add_child: acceptance on, len(children) < max, "
-    "name not in the potential-parent list (the library's own values, and the documented formula whenever a limits "
-    "event has been settled in the current session); last BranchLevel/BranchRoot/ToggleParentSearch of the "
+    "name not in the potential-parent list, connection not one the client itself opened (SimNet: dialled by 'me', or "
+    "pierced by the scripted peer on the client's ConnectToPeer) (the library's own values, and the documented "
+    "formula whenever a limits event has been settled in the current session); last BranchLevel/BranchRoot/ToggleParentSearch of the "
     "current server session and last DistributedBranchLevel/Root on each child's link == position derived from "
     "the fold of the frames the client processed on the current parent's connection. A mismatch is reported once "
     "(re-reported only when expectation or told values change), under position:<server|child>:<first wrong field>:"
@@ -59,7 +64,7 @@ MIN_OBS = {
                  'position_checks': 70000, 'parents_set': 6000},
 }
 SHARD_TIMEOUT = {'quick': 600, 'thorough': 5400}
-N_RANDOM = {'quick': 354, 'thorough': 15000}
+N_RANDOM = {'quick': 2000, 'thorough': 15000}
 WHAT_FAILS = {
     'parent-is-also-child': 'the parent peer object is also in the list of children',
     'parent-or-child-connection-dead': 'parent or child whose connection is not open at a quiescent moment',
